@@ -2,4 +2,4 @@ package main
 
 import "verifharness/c18"
 
-func init() { runners["C18"] = c18.Run }
+func init() { runners["C18"] = c18.Run; facts["C18"] = c18.Facts }
